@@ -292,6 +292,9 @@ def run(R):
         # every application of the family follows the documented rules: pavexc must accept it and its SDK must compile
         if o.get("klass") != FAMILY:
             continue
+        if o.get("timed_out"):
+            broken_tie.append("%s: pavexc did not terminate within the time limit (%.0fs; machine load?)" % (name, o["secs"]))
+            continue
         if o["rc"] != 0 or o["panicked"] or not o.get("cargo_check", {}).get("ok"):
             msg = [l.strip() for l in o["out"].split("\n") if "panicked" in l or "did not" in l or "ERROR" in l][:3]
             rejected.append({"program": name, "rc": o["rc"], "panicked": o["panicked"], "cargo_check": o.get("cargo_check"),
